@@ -106,6 +106,18 @@ func endConn(c *rawClient, cause string) {
 		wr([]byte{0xf0, 0x00}) // reserved packet type 15
 	case "oversize":
 		wr([]byte{0x30, 0xff, 0xff, 0xff, 0x7f}) // PUBLISH announcing 256 MB: larger than the ring
+	case "badfull":
+		// an illegal packet (PUBLISH, QoS 1, packet identifier 0) whose length is exactly the ring size:
+		// the incoming ring is completely full - the receiver waits for room, not inside a read - when
+		// the processor has the whole packet, refuses it and ends the connection itself
+		var pkt []byte
+		for n := 16384; n > 16000; n-- {
+			pkt = wPub{qos: 1, id: 0, topic: []byte("big"), payload: make([]byte, n)}.encode()
+			if len(pkt) == 16384 {
+				break
+			}
+		}
+		wr(pkt)
 	case "keepalive":
 		// stay silent: the broker's read deadline (K=1 ⇒ 1.2 s) ends the connection
 	}
@@ -451,14 +463,14 @@ func genLife(seed int64, n int, tier string, w *bufio.Writer) {
 	r := rand.New(rand.NewSource(seed))
 	fmt.Fprintln(w, "life reset")
 	conds := []string{"idle", "outfull", "infull"}
-	causes := []string{"disconnect", "close", "protoerr", "oversize", "keepalive", "halfclose"}
+	causes := []string{"disconnect", "close", "protoerr", "oversize", "keepalive", "halfclose", "badfull"}
 	k := 0
 	for _, cd := range conds {
 		for _, cs := range causes {
 			if k >= n {
 				return
 			}
-			if tier != "thorough" && (cs == "keepalive" || cs == "halfclose") && cd != "idle" {
+			if tier != "thorough" && (cs == "keepalive" || cs == "halfclose" || cs == "badfull") && cd != "idle" {
 				continue
 			}
 			if tier != "thorough" && cd == "infull" && cs != "close" && cs != "disconnect" {
@@ -514,7 +526,7 @@ func genLifePairs(seed int64, n int, tier string, w *bufio.Writer) {
 		{"selffull", "keepalive", "s"}, {"outfull", "close", "t"}, {"infull", "disconnect", "t"}, {"cross", "keepalive", "s"},
 		{"cross", "keepalive", "t"}, {"outfull", "disconnect", "t"}, {"outfull", "keepalive", "t"}, {"infull", "protoerr", "t"},
 		{"infull", "oversize", "t"}, {"infull", "keepalive", "t"}, {"outfull", "protoerr", "t"}, {"outfull", "oversize", "t"},
-		{"selffull", "halfclose", "s"}, {"cross", "halfclose", "s"}, {"infull", "halfclose", "t"},
+		{"selffull", "halfclose", "s"}, {"cross", "halfclose", "s"}, {"infull", "halfclose", "t"}, {"outfull", "badfull", "s"},
 	}
 	emitScns(w, rand.New(rand.NewSource(seed)), n, all, all)
 }
